@@ -444,6 +444,25 @@ func check(d *doc) (fl *harness.Failure, nexp int, kinds []string) {
 	if len(extra) > 0 {
 		return harness.Failf("warning-unwarranted:"+kindOf(extra[0]), "reported but not warranted: %v\nreported: %v\nfile:\n%s", extra, texts, text), nexp, kinds
 	}
+	// asking again gives the same report (whatever was read or cached by the first call,
+	// by the views of the people and families, or by a similarity calculation in between)
+	for _, ind := range document.Individuals() {
+		_, _, _ = ind.Families(), ind.Spouses(), ind.Parents()
+		_, _ = ind.EstimatedBirthDate()
+		_, _ = ind.EstimatedDeathDate()
+		for _, other := range document.Individuals() {
+			_ = ind.SurroundingSimilarity(other, gedcom.NewSimilarityOptions(), false)
+		}
+	}
+	again, textsAgain, f := project(document.Warnings())
+	if f != nil {
+		return f, nexp, kinds
+	}
+	for k := range mergeKeys(got, again) {
+		if got[k] != again[k] {
+			return harness.Failf("second-report-differs:"+kindOf(k), "warning %s reported x%d by the first call of Warnings() and x%d by the second call on the same document\nfirst: %v\nsecond: %v\nfile:\n%s", k, got[k], again[k], texts, textsAgain, text), nexp, kinds
+		}
+	}
 	// reordering records and children does not change the set of warnings
 	d2 := *d
 	d2.ReverseKid = !d.ReverseKid
@@ -472,6 +491,17 @@ func check(d *doc) (fl *harness.Failure, nexp int, kinds []string) {
 		}
 	}
 	return nil, nexp, kinds
+}
+
+func mergeKeys(a, b map[string]int) map[string]bool {
+	out := map[string]bool{}
+	for k := range a {
+		out[k] = true
+	}
+	for k := range b {
+		out[k] = true
+	}
+	return out
 }
 
 // ---- generator ---------------------------------------------------------------
@@ -664,7 +694,7 @@ func seq(n int) []int {
 
 func TestCheckWarnings(t *testing.T) {
 	s := harness.NewSub("warnings-sound-and-complete",
-		"random family graphs (1..7 people, 0..3 families, distinct roles inside a family, a sibling pair shares at most one family) with exact D Mon Y dates between about 1600 and 1975: sibling gaps from {0,1,2,3,30,200,269,270,280,281,400,1000} days, children born -400/-1/0/+1 days or 15-35 years relative to a parent, deaths at -10 days .. 130 years incl. 99.9/100.1, marriages at 10/15.9/16.1/25/60/99.9/100.1/104 years, baptisms/burials around birth/death, 0-3 SEX lines, unparsable dates in RESI/ENGA events; the multiset of (warning kind, people, dates) computed from the facts must equal the projection of Document.Warnings(), before and after reordering records and children; non-trivial = at least one warranted warning and at least one candidate of another kind that is not warranted")
+		"random family graphs (1..7 people, 0..3 families, distinct roles inside a family, a sibling pair shares at most one family) with exact D Mon Y dates between about 1600 and 1975: sibling gaps from {0,1,2,3,30,200,269,270,280,281,400,1000} days, children born -400/-1/0/+1 days or 15-35 years relative to a parent, deaths at -10 days .. 130 years incl. 99.9/100.1, marriages at 10/15.9/16.1/25/60/99.9/100.1/104 years, baptisms/burials around birth/death, 0-3 SEX lines, unparsable dates in RESI/ENGA events; the multiset of (warning kind, people, dates) computed from the facts must equal the projection of Document.Warnings(), again on a second call after the views and similarities of the document were read, and before and after reordering records and children; non-trivial = at least one warranted warning and at least one candidate of another kind that is not warranted")
 	s.Rapid(t, harness.Share(harness.Pick(80000, 2000000)), 200, func(rt *rapid.T) {
 		d := genDoc(rt)
 		fl, nexp, kinds := check(d)
